@@ -74,6 +74,14 @@ func (s *Server) proxyRoute(c *gin.Context) {
 }
 
 func (s *Server) panicRoute(c *gin.Context, err any) {
+	if err == http.ErrAbortHandler {
+		// The reverse proxy aborts the handler when the upstream service
+		// fails part way through the response body. Propagate the abort to
+		// net/http so the connection is closed, otherwise the response is
+		// completed as though the truncated body was the whole response.
+		panic(err)
+	}
+
 	s.logger.Error(
 		"handler panic",
 		zap.String("path", c.FullPath()),
